@@ -452,6 +452,14 @@ fn chain_sweeps(run: &mut Run, thorough: bool) {
     });
 }
 
+/// the DENSE family carries each board with short and with five-digit counters (for the FEN
+/// properties); the sweep takes the short ones only
+fn check_pos_slim_short(ctx: &mut Ctx, p: &Pos, b: &Board) {
+    if p.hmc < 1000 {
+        check_pos_slim(ctx, p, b)
+    }
+}
+
 pub fn run(run: &mut Run) {
     run.counter_names = NAMES;
     run.max_idx = MAX_IDX;
@@ -463,12 +471,12 @@ pub fn run(run: &mut Run) {
     let thorough = run.thorough();
     run.seq("TABLE INDICES (whole input domain of every index computation)", |ctx| table_indices(ctx));
     let sel = if thorough {
-        Sel { m3: true, ray: Some(3), ep: Some(false), castle: Some(false), promo: Some(false), reach: Some(4), occ: true, pin2: Some(3), multicheck: Some(3), checkpin: Some(3), castle2: true, counts: true, hist: Some((3, 2)), ..Default::default() }
+        Sel { m3: true, ray: Some(3), ep: Some(false), castle: Some(false), promo: Some(false), reach: Some(4), occ: true, pin2: Some(3), multicheck: Some(3), checkpin: Some(3), castle2: true, hemmed: true, counts: true, promorow: true, hist: Some((3, 2)), ..Default::default() }
     } else {
-        Sel { m3: true, ray: Some(2), ep: Some(false), ep_spread_only: true, castle: Some(false), promo: Some(false), reach: Some(3), occ: true, multicheck: Some(1), checkpin: Some(1), castle2: true, counts: true, ..Default::default() }
+        Sel { m3: true, ray: Some(2), ep: Some(false), ep_spread_only: true, castle: Some(false), promo: Some(false), reach: Some(3), occ: true, multicheck: Some(1), checkpin: Some(1), castle2: true, hemmed: true, counts: true, promorow: true, ..Default::default() }
     };
     run_universes(run, &sel, DISAGREE, &check_pos);
-    run_universes(run, &Sel { dense: true, ..Default::default() }, DISAGREE, &check_pos_slim);
+    run_universes(run, &Sel { dense: true, ..Default::default() }, DISAGREE, &check_pos_slim_short);
     maxmob(run, thorough);
     {
         let seeds = crate::universe::seeds();
@@ -527,9 +535,9 @@ pub fn leg(run: &mut Run) {
     run.max_idx = MAX_IDX;
     let thorough = run.thorough();
     run.seq("TABLE INDICES", |ctx| table_indices(ctx));
-    let sel = Sel { m3: true, ray: Some(2), ep: Some(false), ep_spread_only: true, castle: Some(false), promo: Some(false), reach: Some(3), occ: true, ..Default::default() };
+    let sel = Sel { m3: true, ep: Some(false), ep_spread_only: true, castle: Some(false), promo: Some(false), reach: Some(3), occ: true, ..Default::default() };
     run_universes(run, &sel, DISAGREE, &check_pos);
-    run_universes(run, &Sel { dense: true, ..Default::default() }, DISAGREE, &check_pos_slim);
+    run_universes(run, &Sel { dense: true, ..Default::default() }, DISAGREE, &check_pos_slim_short);
     maxmob(run, thorough);
     let seeds = crate::universe::seeds();
     run.seq("APPEND: gen_all_into into one caller-supplied MoveList until it is full (22 seeds)", |ctx| {
